@@ -318,6 +318,7 @@ def run(cx):
         cx.consulted(m)
     cx.explanation = (
         "the expression translator is evaluated on every operator/chain/nesting shape and the emitted C++ is parsed by clang (typed tree = Python tree under an operator oracle; unsound rows are itemised known findings). Everything else is decided by evaluation in the checker's interpreters: every IR class x field variant must change the emitted sketch; if/elif/else emptiness patterns, while/for/try shapes; tuple assignment, global initialisers and flow-dependent values by interpreting the parsed IR against CPython's execution of the same script (scripted sensor, both outcomes); the list helper templates with C semantics and a tracked heap on every list of <= 4 elements; every statement of a corpus is accounted for in four contexts. Value equality of traces for arbitrary programs (16-bit int, float printing) is not decided."
+        " Since round 10 whole scripts are also taken through parse() and emit() (partial evaluation), the emitted translation unit is parsed by clang and interpreted by the checker's C evaluator on a scripted board (never compiled to code or run); the device trace of setup() plus several loop() passes must equal the trace CPython leaves on the checker's recording stubs for the corpus scripts tagged c01 (sa/e2e.py); the promotion rewriter is evaluated on declarations nested two levels deep in every child block."
     )
     cls, fields = pe.ir_classes()
     tce = pm.func("_to_c_expr")
